@@ -25,6 +25,16 @@ Lemma hughes_batch_inverts w x y z : w*w+x*x+y*y+z*z = 1 -> 1/100000000 < Rabs w
   C02_hughes_batch_q_R w x y z = Val (qsc (Rsgn w) w x y z).
 Proof. intros Hunit Hw. unit_open Hunit U. unfold C02_hughes_batch_q_R. hughes_tac w x y z U Hu Hw. Qed.
 
+(* rows of a stack do not influence each other: the generic row next to a FIXED exact half-turn row (and an identity
+   row), in first and in last position, gets the same value as alone *)
+Lemma hughes_mixed_inverts w x y z : w*w+x*x+y*y+z*z = 1 -> 1/100000000 < Rabs w ->
+  C02_hughes_mixed_gh_q_R w x y z = Val (qsc (Rsgn w) w x y z) /\ C02_hughes_mixed_hig_q_R w x y z = Val (qsc (Rsgn w) w x y z).
+Proof.
+  intros Hunit Hw. unit_open Hunit U. split.
+  - unfold C02_hughes_mixed_gh_q_R. hughes_tac w x y z U Hu Hw.
+  - unfold C02_hughes_mixed_hig_q_R. hughes_tac w x y z U Hu Hw.
+Qed.
+
 (* the region the isclose(trace, 3) shortcut used to destroy: a rotation of about 2e-4 rad (w = 1 - 5e-9 exactly is not
    rational-unit, so take the rational unit quaternion (1-t^2, 2t, 0, 0)/(1+t^2) with t = 1/10000) *)
 Example hughes_small_angle :
